@@ -457,6 +457,9 @@ func scenarios(tier string) []sched.Scenario {
 		}
 		out = append(out, sched.Scenario{Name: x.v.name, Cfg: c, MaxDev: x.dev, Body: body(x.v)})
 	}
+	if ExtraLeader != nil {
+		out = append(out, ExtraLeader(tier)...)
+	}
 	if !withFollower {
 		return out
 	}
@@ -511,6 +514,9 @@ func Main(property string, stage2 bool, keep map[string]bool, rule string) int {
 
 // Extra: further scenarios of the follower side, run before the apply-loop scenarios (C07 only).
 var Extra func(tier string) []sched.Scenario
+
+// ExtraLeader: further scenarios on the leader side, supplied by the harness of one property.
+var ExtraLeader func(tier string) []sched.Scenario
 
 var keepKeys map[string]bool
 
